@@ -115,6 +115,22 @@ def slice_affine(ctx, rng, n):
     return sl
 
 
+def _repair(ctx):
+    """the claim of this property rests on `apply_bounds` landing inside the box for every double: the bit-exact
+    differential of the C17 check on adversarial doubles (faces, one ulp outside, exact multiples of the range)"""
+    from ..common import Slice
+    from . import c17
+
+    sl = Slice("apply_bounds-vs-Repair.repair(F64) (adversarial doubles; a repaired coordinate outside the box is a C01 violation)")
+    c17.run_cases(ctx, ctx.rng(91), 60, 40, sl)
+    out = []
+    for v in sl.violations:
+        if v["signature"] in ("C17/outside-box", "C17/not-finite"):
+            out.append(dict(v, signature="C01/eval-outside-box/bound-repair-leaves-the-box"))
+    sl.violations = out
+    return sl
+
+
 def run(ctx):
     from .. import engine
 
@@ -131,6 +147,7 @@ def run(ctx):
         engine.slice_engine(ctx, ctx.rng(81), ctx.size(250, 3000), only="C01/"),
         engine.slice_sea(ctx, ctx.rng(83), ctx.size(400, 5000), only="C01/"),
         slice_affine(ctx, ctx.rng(85), ctx.size(150, 2000)),
+        _repair(ctx),
         # an objective with NaN holes (NaN is a legal value, ordered as worst): the property does not depend on it
         runs.nan_monitor_batch(ctx, PID, ctx.size(30, 300), salt=57),
     ]
